@@ -1421,6 +1421,13 @@ def replay_case(case):
     if kind == "iface":
         from . import c16_iface
         return c16_iface.replay_case(case)
+    if kind == "policy-flip":
+        try:
+            bad = policy_flip_case(case)
+        except Exception as e:  # noqa: BLE001
+            bad = ("raises-" + type(e).__name__, str(e)[:160])
+        return bad is None, {"site": "Reusable policy attributes changed on a live object",
+                             "kind": bad[0] if bad else None}, bad
     if kind == "schedule":
         sched = list(case["schedule"])
         try:        # warm-up, see run()
@@ -1512,6 +1519,83 @@ def random_programs(rng, nthreads, maxq, mode):
     return progs
 
 
+def policy_flip_case(case):
+    """One live Reusable* object whose *policy attributes* (`overwrite`, `cache_only`) are changed between queries
+    (they are plain public attributes). Whatever the combination does -- answer from the cache, search again, or refuse
+    with KeyError -- a tree that is returned must be a tree of the contraction asked. Oracle only.
+    Returns None or (kind, detail)."""
+    import warnings
+    warnings.simplefilter("ignore")
+    if case["cls"] == "rgreedy":
+        opt = ReusableRandomGreedyOptimizer(max_repeats=2, seed=case["seed"], overwrite=case["overwrite0"])
+    else:
+        opt = ctg.ReusableHyperOptimizer(methods=["greedy"], max_repeats=2, optlib="random", parallel=False,
+                                         progbar=False, overwrite=case["overwrite0"], seed=case["seed"])
+    for step in case["steps"]:
+        if "set" in step:
+            for k, v in step["set"].items():
+                setattr(opt, k, v)
+            continue
+        n = POOL[step["q"]]
+        try:
+            if step.get("api") == "call":
+                path = opt(n.sym_inputs(), n.sym_output(), n.sym_sizes())
+                ok = c05_valid_path(len(n.inputs), path)
+                if not ok:
+                    return ("path-of-another-contraction", {"asked": step["q"], "path": [list(p) for p in path]})
+            else:
+                tree = opt.search(n.sym_inputs(), n.sym_output(), n.sym_sizes())
+                got = net_of_tree(tree)
+                if got != step["q"] and not (got >= 0 and KEY[got] == KEY[step["q"]] and
+                                             [sorted(t) for t in tree.inputs] == [sorted(t) for t in n.sym_inputs()]):
+                    return ("tree-of-another-contraction", {"asked": step["q"], "returned": got, "N": tree.N})
+        except KeyError:
+            continue      # a refusal (cache_only) is not an answer
+    return None
+
+
+def c05_valid_path(n, path):
+    for s in path:
+        if not s or len(set(s)) != len(s) or any((not isinstance(i, int)) or i < 0 or i >= n for i in s):
+            return False
+        n = n - len(s) + 1
+    return n == 1
+
+
+def gen_policy_flip(rng):
+    steps = []
+    for _ in range(rng.randint(2, 4)):
+        steps.append({"q": rng.choice([3, 4, 5, 6, 7]), "api": rng.choice(["search", "search", "call"])})
+    steps.append({"set": {rng.choice(["cache_only", "cache_only", "overwrite"]): rng.choice([True, True, False, "improved"])}})
+    for _ in range(rng.randint(2, 4)):
+        if rng.random() < 0.25:
+            steps.append({"set": {rng.choice(["cache_only", "overwrite"]): rng.choice([True, False, "improved"])}})
+        steps.append({"q": rng.choice([3, 4, 5, 6, 7]), "api": rng.choice(["search", "search", "call"])})
+    for st in steps:
+        if "set" in st and "cache_only" in st["set"]:
+            st["set"]["cache_only"] = bool(st["set"]["cache_only"])
+    return {"kind": "policy-flip", "cls": rng.choice(["hyper", "hyper", "rgreedy"]),
+            "overwrite0": rng.choice([False, True, True, "improved"]), "seed": rng.randrange(1 << 30), "steps": steps}
+
+
+def stream_policy_flip(ctx, n):
+    for _ in range(n):
+        if ctx.time_left() < 30:
+            return
+        case = gen_policy_flip(ctx.rng)
+        ctx.case(case, nontrivial=True, sample=False)
+        ctx.count("policy-flip:" + case["cls"])
+        try:
+            bad = policy_flip_case(case)
+        except Exception as e:  # noqa: BLE001
+            bad = ("raises-" + type(e).__name__, str(e)[:160])
+        if bad is not None:
+            ctx.violation({"site": "Reusable policy attributes changed on a live object", "kind": bad[0]},
+                          {"case": case, "failed": [bad[0], bad[1]]},
+                          "policy flip history: %s %s" % (bad[0], str(bad[1])[:200]))
+            return
+
+
 def run(ctx, drv):
     quick = ctx.tier == "quick"
     rng = ctx.rng
@@ -1533,6 +1617,8 @@ def run(ctx, drv):
         ctx.notes["facts_extracted"]["suboptimizer"] = extract_subopt_facts()
     except Exception as e:
         ctx.obligation("fact extraction from reusable.py / presets.py / path_basic.py", False, repr(e))
+
+    stream_policy_flip(ctx, 40 if quick else 600)
 
     # warm-up (lazy imports, pools, compiled helpers): the controller takes a thread that does not
     # reach a yield point within `Controller.block_timeout` for blocked
